@@ -65,10 +65,12 @@ Definition req_run_hook_body_data (data : option bytes) (last : bool) (c : connp
   end.
 
 (* htp_tx_req_process_body_data_ex with request_content_encoding NONE/UNKNOWN (decompression off) *)
-Definition tx_req_process_body_data_ex (i : nat) (data : option bytes) (c : connp) : st * connp :=
-  let len := match data with Some d => Z.of_nat (length d) | None => 0 end in
+(* (data, len): data = None is a NULL pointer; then len is the caller's len (0 = end of body, > 0 = a gap:
+   REQ_BODY_IDENTITY passes in_current_data + 0 = NULL with the number of missing bytes) *)
+Definition tx_req_process_body_data_ex (i : nat) (data : option bytes) (nlen : nat) (c : connp) : st * connp :=
+  let len := match data with Some d => Z.of_nat (length d) | None => Z.of_nat nlen end in
   let c := tx_upd c i (fun t => t <| t_request_entity_len ::= Z.add len |>) in
-  let last := match data with None => true | Some _ => false end in
+  let last := match data with None => (nlen =? 0)%nat | Some _ => false end in
   match req_run_hook_body_data data last c with
   | (ST_OK, c) => (ST_OK, c)
   | (_, c) => (ST_ERROR, c)
@@ -120,7 +122,7 @@ Definition tx_req_has_body (t : tx) : bool :=
 
 (* htp_tx_state_request_complete_partial *)
 Definition tx_state_request_complete_partial (i : nat) (c : connp) : st * connp :=
-  let '(rc, c) := if tx_req_has_body (tx_get c i) then tx_req_process_body_data_ex i None c else (ST_OK, c) in
+  let '(rc, c) := if tx_req_has_body (tx_get c i) then tx_req_process_body_data_ex i None 0 c else (ST_OK, c) in
   match rc with
   | ST_OK =>
     let c := tx_upd c i (fun t => t <| t_request_progress := c_HTP_REQUEST_COMPLETE |>) in
